@@ -10,6 +10,10 @@ def viewSize : View → Nat
   | .suspend _ v => 1 + viewSize v
   | .suspense _ _ vs => 1 + viewSizeL vs
   | .eb vs => 1 + viewSizeL vs
+  | .resSuspend _ v => 1 + viewSize v
+  | .resRead _ v => 1 + viewSize v
+  | .localRead => 1
+  | .localAwait _ => 1
 def viewSizeL : List View → Nat
   | [] => 0
   | v :: vs => viewSize v + viewSizeL vs
@@ -100,12 +104,53 @@ theorem compile_inOrd : ∀ (n : Nat),
       | suspense fb nonce vs =>
         simp only [viewSize] at h
         have := ih.2 .direct vs (by omega)
-        cases c <;> simp [compile, inOrdOps, inOrdOp, docOps, docOp, viewDoc, this]
+        by_cases hl : localNowL vs = true
+        · cases c <;> simp [compile, inOrdOps, inOrdOp, docOps, docOp, viewDoc, hl]
+        · have hl' : localNowL vs = false := by simpa using hl
+          cases hw : localWaitL vs with
+          | some f => cases c <;> simp [compile, inOrdOps, inOrdOp, docOps, docOp, viewDoc, hl', hw]
+          | none => cases c <;> simp [compile, inOrdOps, inOrdOp, docOps, docOp, viewDoc, hl', hw, this]
       | eb vs =>
         simp only [viewSize] at h
         have := ih.2 c vs (by omega)
         cases c <;> simp [compile, inOrdOps, inOrdOp, docOps, docOp, viewDoc, this]
+      | resSuspend f v =>
+        simp only [viewSize] at h
+        cases c with
+        | top =>
+          have := ih.1 .top v (by omega)
+          simp [compile, inOrdOps, inOrdOp, docOps, docOp, viewDoc, this]
+        | direct =>
+          have := ih.1 .direct v (by omega)
+          simpa [compile, viewDoc] using this
+        | nested =>
+          have := ih.1 .direct v (by omega)
+          simpa [compile, viewDoc] using this
+      | resRead f v =>
+        simp only [viewSize] at h
+        have := ih.1 c v (by omega)
+        cases c <;> simpa [compile, viewDoc] using this
+      | localRead => cases c <;> simp [compile, inOrdOps, docOps, viewDoc]
+      | localAwait f => cases c <;> simp [compile, inOrdOps, docOps, viewDoc]
     exact ⟨hV, fun c vs h => hL c vs h hV⟩
+
+/-! `oooViewOk`: no boundary whose future resolves to `None` *later* (`localWait`: a `LocalResource` awaited after another
+    future; the out-of-order chunk then has `replace = false`, which `OooWf` does not cover) -/
+mutual
+def oooViewOk : View → Bool
+  | .raw _ => true
+  | .seq vs => oooViewOkL vs
+  | .suspend _ v => oooViewOk v
+  | .suspense _ _ vs => (localNowL vs || (localWaitL vs).isNone) && oooViewOkL vs
+  | .eb vs => oooViewOkL vs
+  | .resSuspend _ v => oooViewOk v
+  | .resRead _ v => oooViewOk v
+  | .localRead => true
+  | .localAwait _ => true
+def oooViewOkL : List View → Bool
+  | [] => true
+  | v :: vs => oooViewOk v && oooViewOkL vs
+end
 
 /-- the same shape as an inductive predicate (convenient for induction) -/
 inductive OooWf : List Op → Prop where
@@ -208,69 +253,102 @@ theorem oooDocOps_append {a : List Op} (ha : OooWf a) (b : List Op) : oooDocOps 
   | sub _ _ _ ih => simp [oooDocOps, oooDocOp, ih]
 
 theorem compile_oooWf : ∀ (n : Nat),
-    (∀ (c : Ctx) (v : View), viewSize v ≤ n →
+    (∀ (c : Ctx) (v : View), viewSize v ≤ n → oooViewOk v = true →
       OooWf (compile true c v) ∧ oooDocOps (compile true c v) = viewDoc v) ∧
-    (∀ (c : Ctx) (vs : List View), viewSizeL vs ≤ n →
+    (∀ (c : Ctx) (vs : List View), viewSizeL vs ≤ n → oooViewOkL vs = true →
       OooWf (compileL true c vs) ∧ oooDocOps (compileL true c vs) = viewDocL vs) := by
   intro n
   induction n with
   | zero =>
     refine ⟨?_, ?_⟩
     · intro c v h; cases v <;> simp [viewSize] at h
-    · intro c vs h
+    · intro c vs h _
       cases vs with
       | nil => exact ⟨by simp [compileL]; exact .nil, by simp [compileL, oooDocOps, viewDocL]⟩
       | cons v vs => cases v <;> simp [viewSizeL, viewSize] at h
   | succ n ih =>
-    have hL : ∀ (c : Ctx) (vs : List View), viewSizeL vs ≤ n + 1 →
-        (∀ (c : Ctx) (v : View), viewSize v ≤ n + 1 →
+    have hL : ∀ (c : Ctx) (vs : List View), viewSizeL vs ≤ n + 1 → oooViewOkL vs = true →
+        (∀ (c : Ctx) (v : View), viewSize v ≤ n + 1 → oooViewOk v = true →
           OooWf (compile true c v) ∧ oooDocOps (compile true c v) = viewDoc v) →
         OooWf (compileL true c vs) ∧ oooDocOps (compileL true c vs) = viewDocL vs := by
       intro c vs
       induction vs with
-      | nil => intro _ _; exact ⟨by simp [compileL]; exact .nil, by simp [compileL, oooDocOps, viewDocL]⟩
+      | nil => intro _ _ _; exact ⟨by simp [compileL]; exact .nil, by simp [compileL, oooDocOps, viewDocL]⟩
       | cons v vs ihv =>
-        intro h hv
+        intro h hok hv
         simp only [viewSizeL] at h
-        have h1 := hv c v (by omega)
-        have h2 := ihv (by omega) hv
+        simp only [oooViewOkL, Bool.and_eq_true] at hok
+        have h1 := hv c v (by omega) hok.1
+        have h2 := ihv (by omega) hok.2 hv
         refine ⟨by simp only [compileL]; exact h1.1.append h2.1, ?_⟩
         simp [compileL, oooDocOps_append h1.1, viewDocL, h1.2, h2.2]
-    have hV : ∀ (c : Ctx) (v : View), viewSize v ≤ n + 1 →
+    have hV : ∀ (c : Ctx) (v : View), viewSize v ≤ n + 1 → oooViewOk v = true →
         OooWf (compile true c v) ∧ oooDocOps (compile true c v) = viewDoc v := by
-      intro c v h
+      intro c v h hok
       cases v with
       | raw s => cases c <;> exact ⟨by simp only [compile]; exact .sync s .nil, by simp [compile, oooDocOps, oooDocOp, viewDoc]⟩
       | seq vs =>
         simp only [viewSize] at h
-        have := ih.2 c vs (by omega)
+        have := ih.2 c vs (by omega) (by simpa [oooViewOk] using hok)
         cases c <;> simpa [compile, viewDoc] using this
       | suspend f v =>
         simp only [viewSize] at h
+        have hv : oooViewOk v = true := by simpa [oooViewOk] using hok
         cases c with
         | top =>
-          have := ih.1 .top v (by omega)
+          have := ih.1 .top v (by omega) hv
           refine ⟨?_, ?_⟩
           · simp only [compile, if_true]
             exact .ite _ this.1 (.triple _ _ _ this.1 .nil) (by simp [oooDocOps, oooDocOp]) .nil
           · simp [compile, oooDocOps, oooDocOp, viewDoc, this.2]
         | direct =>
-          have := ih.1 .direct v (by omega)
+          have := ih.1 .direct v (by omega) hv
           simpa [compile, viewDoc] using this
         | nested =>
-          have := ih.1 .direct v (by omega)
+          have := ih.1 .direct v (by omega) hv
           simpa [compile, viewDoc] using this
       | suspense fb nonce vs =>
         simp only [viewSize] at h
-        have := ih.2 .direct vs (by omega)
-        cases c <;> exact ⟨by simp only [compile, if_true]; exact .triple _ _ _ this.1 .nil,
-          by simp [compile, oooDocOps, oooDocOp, viewDoc, this.2]⟩
+        simp only [oooViewOk, Bool.and_eq_true, Bool.or_eq_true] at hok
+        have := ih.2 .direct vs (by omega) hok.2
+        by_cases hl : localNowL vs = true
+        · cases c <;> exact ⟨by simp only [compile, hl, if_true]; exact .nextId (.sync fb .nil),
+            by simp [compile, hl, oooDocOps, oooDocOp, viewDoc]⟩
+        · have hl' : localNowL vs = false := by simpa using hl
+          have hw : localWaitL vs = none := by
+            rcases hok.1 with h0 | h0
+            · exact absurd h0 hl
+            · simpa using h0
+          cases c <;> exact ⟨by simp only [compile, hl', hw, if_true, Bool.false_eq_true, if_false]; exact .triple _ _ _ this.1 .nil,
+            by simp [compile, hl', hw, oooDocOps, oooDocOp, viewDoc, this.2]⟩
       | eb vs =>
         simp only [viewSize] at h
-        have := ih.2 c vs (by omega)
+        have := ih.2 c vs (by omega) (by simpa [oooViewOk] using hok)
         cases c <;> exact ⟨by simp only [compile]; exact .sub this.1 .nil,
           by simp [compile, oooDocOps, oooDocOp, viewDoc, this.2]⟩
-    exact ⟨hV, fun c vs h => hL c vs h hV⟩
+      | resSuspend f v =>
+        simp only [viewSize] at h
+        have hv : oooViewOk v = true := by simpa [oooViewOk] using hok
+        cases c with
+        | top =>
+          have := ih.1 .top v (by omega) hv
+          refine ⟨?_, ?_⟩
+          · simp only [compile, if_true]
+            exact .ite _ this.1 (.triple _ _ _ this.1 .nil) (by simp [oooDocOps, oooDocOp]) .nil
+          · simp [compile, oooDocOps, oooDocOp, viewDoc, this.2]
+        | direct =>
+          have := ih.1 .direct v (by omega) hv
+          simpa [compile, viewDoc] using this
+        | nested =>
+          have := ih.1 .direct v (by omega) hv
+          simpa [compile, viewDoc] using this
+      | resRead f v =>
+        simp only [viewSize] at h
+        have := ih.1 c v (by omega) (by simpa [oooViewOk] using hok)
+        cases c <;> simpa [compile, viewDoc] using this
+      | localRead => cases c <;> exact ⟨by simp only [compile]; exact .nil, by simp [compile, oooDocOps, viewDoc]⟩
+      | localAwait f => cases c <;> exact ⟨by simp only [compile]; exact .nil, by simp [compile, oooDocOps, viewDoc]⟩
+    exact ⟨hV, fun c vs h hok => hL c vs h hok hV⟩
 
 /-! ### marker ids (`next_id`, the `push(0)` of a sub-builder) -/
 
